@@ -53,6 +53,8 @@ ASSUMPTIONS = [
     'numpy.loadtxt do; an io.StringIO() target is read with its own convention (LF only)',
     'refusal types accepted: scipp.VariancesError, scipp.DimensionError, scipp.CoordError, ValueError '
     '(the types raised by the module and pinned by its tests; the docstring only says "raise an error")',
+    'zero-dimensional input counts as "not one-dimensional" and must be refused (docstring: "The input must be '
+    '1-dimensional"; the code raises DimensionError for ndim != 1)',
     'headers and generated headers outside ASCII (unit strings such as angstrom, us) are outside the '
     'quantifier: executed and counted, not judged',
 ]
